@@ -17,9 +17,9 @@ CLAIMS = {
     'C04': dict(kernel='UTF-8/UTF-16 writers, surrogate decoding, escaping and CDATA state machines of FormatterToXMLUnicode',
                 text='Component-level proof: the code-unit writers emit exactly the RFC 3629 / UTF-16 encoding of every code point for every buffer fill level; escaping loops emit every input unit once, in order, raw only when not markup-significant; CDATA splitting automaton. Serializer selection, legacy FormatterToXML and transcoders are not covered.',
                 design_ref='DESIGN.md 4 C04', note=_NOTE, technique='CBMC function+loop contracts with ghost output-protocol state in stub contracts'),
-    'C06': dict(kernel='reset()/cleanUpTransients() frame contracts over header-generated member lists',
-                text='Component-level proof that reset re-establishes the constructed state of every per-transformation member.',
-                design_ref='DESIGN.md 4 C06', note=_NOTE, technique='CBMC contracts over ghost member records generated from headers'),
+    'C06': dict(kernel='the six reset() functions the transformer relies on (StylesheetExecutionContextDefault, XPathExecutionContextDefault, XSLTEngineImpl, XObjectFactoryDefault, VariablesStack, XalanTransformer/EnsureReset)',
+                text='Component-level proof: each reset() re-establishes the constructed state of every per-transformation data member (member lists generated from the headers on every run), re-primes the stacks the constructor primes, resets every attached collaborator, destroys owned objects first, and leaves settings and sticky parameters alone; VariablesStack::reset brings the search-start index back to 0 through its pop() loop (loop contract). History equivalence with a fresh transformer, RAII unwinding and the sub-object resets that are not among the six are not covered.',
+                design_ref='DESIGN.md 4 C06', note=_NOTE, technique='CBMC assertions/contracts over ghost member records generated from headers; loop contract for VariablesStack::reset'),
     'C08': dict(kernel='indentation state machine of FormatterToXMLUnicode + XalanIndentWriter',
                 text='Component-level proof of the invariant "indent whitespace is never emitted next to character data" per public operation.',
                 design_ref='DESIGN.md 4 C08', note=_NOTE, technique='CBMC contracts, representation invariant per operation with ghost output state'),
